@@ -7,6 +7,14 @@ entry by entry; error behaviour (AssertionError / ValueError) by name; numpy's `
 Oracle (independent of the model): the statement of C01 evaluated on the implementation - entry formula on the
 pattern, exact zeros off it, zero row sums, detailed balance below the cap, shift invariance, linearity in D,
 independence of the storage form, independence of earlier calls on the same object.
+
+Input representation: every explored case is additionally handed to the real code in another representation of
+the SAME denoted numbers (case["rep"], chosen per case by the seed; exhaustively on three small fixed inputs): the
+sparse container class of surfaces and distances independently (csr/coo/csc/lil/bsr/dia, sparray and legacy spmatrix),
+integer / float32 data dtypes where the values are exactly representable, energies and volumes as int / float32 arrays,
+non-contiguous, negative-stride and read-only views, D and T as Python int/float, numpy scalars, 0-d arrays.  The model
+and the oracle take the denoted numbers, so the expected matrix does not depend on the representation.  Which
+representations take part was established on the unchanged tree (REP_EXCLUDED lists the others with the reason).
 """
 from __future__ import annotations
 
@@ -24,7 +32,13 @@ RULE = ("structured random symmetric patterns (random density, chain, ring, star
         "differences exactly at / one ulp around the cap, dyadic differences that make rint ties, large common offsets), "
         "T in [50,1000] K (plus a low-temperature class 5..49 K exercising the open overflow finding), D log-uniform; every "
         "combination of csr / row-major coo for the two inputs; plus inputs outside the quantifier "
-        "(length mismatch, nnz mismatch, single distance broadcast, n=1). A case is non-trivial when the pattern is "
+        "(length mismatch, nnz mismatch, single distance broadcast, n=1). Every case is also run in a second, seed-chosen "
+        "representation of the same numbers (12 sparse container classes incl. the legacy *_matrix ones for surfaces and "
+        "distances independently, int/float32 dtypes, int/non-contiguous/negative-stride/read-only energies and volumes, 8 "
+        "kinds of scalar for D and T; 35% of the cases are integer-valued so that every dtype can carry them exactly; float32 "
+        "energies / float32 surfaces data take part only where every exponent is below 80 in magnitude and are judged with "
+        "tolerances widened to float32 precision - beyond that only the two witnesses of open finding F23 are run), and "
+        "three fixed inputs are swept exhaustively over these families. A case is non-trivial when the pattern is "
         "non-empty and the energies are not all equal; distinct by the hash of the whole input")
 CHUNK = 250
 
@@ -37,6 +51,46 @@ T_MIN = 50.0                     # main generator: T in [50, 1000] K
 LOG_HI = 710.5                   # ln(exact value) above this: float64 must overflow (ln(max double) = 709.78)
 LOG_LO = 708.0                   # between LOG_LO and LOG_HI: either finite or inf, entry excluded (counted)
 KEY_OVERFLOW = "C01:float64_overflow_at_cap_low_T"
+
+# ----------------------------------------------------------------------------------------------
+# input representations (established on the unchanged tree: all of these give the csr_array/float64 matrix bit for bit)
+# ----------------------------------------------------------------------------------------------
+FAMILIES = ["csr_array", "coo_array", "csc_array", "lil_array", "bsr_array", "dia_array",
+            "csr_matrix", "coo_matrix", "csc_matrix", "lil_matrix", "bsr_matrix", "dia_matrix"]
+S_DTYPES = ["float64", "int64", "int32"]                 # surfaces data (float32: only where F32_SAFE, see below)
+H_DTYPES = ["float64", "float32", "int64", "int32"]      # distances data
+E_REPS = ["f64", "i64", "i32", "noncontig", "negstride", "readonly", "noncontig_readonly"]      # (float32: where F32_SAFE)
+V_REPS = ["f64", "f32", "i64", "i32", "noncontig", "negstride", "readonly", "noncontig_readonly"]
+SCALARS = ["float", "int", "np.float64", "np.float32", "np.int64", "np.int32", "0d", "0d_int"]
+INT_SCALARS = {"int", "np.int64", "np.int32", "0d_int"}
+# float32 energies / float32 surfaces data: np.exp resp. the whole matrix is evaluated in float32 (open finding F23,
+# KEY_F32).  They take part in the random sweep only where every exponent stays below F32_SAFE in magnitude (float32
+# overflows at 88.7); their float32 precision is then judged with the widened tolerances of _rep_tol.
+KEY_F32 = "C01:float32_exp_overflow_below_cap"
+F32_SAFE = 80.0
+F32_HI, F32_LO, F32_UNDER = 88.9, 88.5, -87.0      # ln(max float32) = 88.72; below -87.3 float32 is subnormal
+REP_DEFAULT = {"S": "csr_array", "h": "csr_array", "Sdt": "float64", "hdt": "float64", "E": "f64", "V": "f64",
+               "D": "float", "T": "float"}
+REP_EXCLUDED = {
+    "dok_array / dok_matrix (surfaces or distances)": "raises AttributeError on the unchanged tree (no .data attribute; the "
+                                                      "code prints surfaces.data.shape)",
+    "energies / volumes as Python list or tuple": "raises TypeError on the unchanged tree (indexed with an index array)",
+    "integer surfaces data together with an integer D (int, np.int64, np.int32, 0-d int)": "raises UFuncTypeError on the "
+        "unchanged tree (D*S stays integer, in-place true division cannot cast)",
+    "object-dtype energies / volumes, column vectors (n,1)": "raise TypeError / UFuncTypeError / ValueError on the unchanged tree",
+    "float32 energies array / float32 surfaces data with an exponent of magnitude >= 80": "open finding F23 (" + KEY_F32 + "): "
+        "np.exp resp. the matrix data are float32 and overflow above 88.7, e.g. E=[450,0] (float32), S=h=V=1, D=1, T=300 K gives "
+        "[[-inf,inf],..], row sum nan, where float64 gives 1.4969768712880375e+39. Only the two stored witnesses are run in that "
+        "regime; with all exponents below 80 both kinds ARE part of the random sweep, judged with tolerances widened to float32 "
+        "precision (entries rel 1e-4 for float32 energies, 2e-6 for float32 surfaces; row sums 2e-5 of the row's magnitude)",
+    "csr with unsorted column indices, coo not in row-major order, explicitly stored zeros": "outside the quantifier (csr or "
+        "row-major coo as the package produces them, positive S and h)",
+    "bsr with blocks larger than 1x1 (what bsr_array(dense) may choose by itself)": "the blocks store explicit zeros, which "
+        "are outside the quantifier (pattern = stored entries, positive S and h); on the unchanged tree: ValueError when one "
+        "input has them, nan entries (0/0) when both have them; bsr with 1x1 blocks is part of the sweep",
+    "duplicate coordinates in coo": "not the same matrix for the unchanged tree: s1/h1 + s2/h2 instead of (s1+s2)/(h1+h2), or "
+        "ValueError when only one input has them",
+}
 
 
 # ----------------------------------------------------------------------------------------------
@@ -120,23 +174,117 @@ def _energies(rng, n):
     return kind, E
 
 
+def _integral(vals):
+    return all(float(v).is_integer() and abs(v) < 2 ** 31 for v in vals)
+
+
+def _f32exact(vals):
+    return all(float(np.float32(v)) == float(v) for v in vals)
+
+
+def _scalar_ok(kind, x):
+    if kind in INT_SCALARS:
+        return _integral([x])
+    if kind == "np.float32":
+        return _f32exact([x])
+    return True
+
+
+def _f32_safe(case, which):
+    """float32 energies ('E') / float32 surfaces data ('S') can carry this case without leaving float32's range"""
+    if not _f32exact(case["E"] if which == "E" else case["S"]):
+        return False
+    rt2 = 2.0 * R_KJ * case["T"]
+    for (i, j), sv, hv in zip(case["pairs"], case["S"], case["h"]):
+        for a, b in ((i, j), (j, i)):
+            x = abs(case["E"][a] - case["E"][b]) / rt2
+            if which == "E" and x >= F32_SAFE:
+                return False
+            if which == "S" and x + abs(math.log(case["D"] * sv / (hv * case["V"][a]))) >= F32_SAFE:
+                return False
+    return True
+
+
+def _choose_rep(rng, case):
+    """another representation of the same denoted input, compatible with its values (integer dtypes only for integer
+    values, float32 only for exactly representable ones); never a combination that the unchanged tree rejects"""
+    rep = {"S": rng.choice(FAMILIES), "h": rng.choice(FAMILIES)}
+    if rng.random() < 0.5:                       # legacy spmatrix at least on one side in half of the cases
+        rep[rng.choice(["S", "h"])] = rng.choice(FAMILIES[6:])
+    sdt = [d for d in S_DTYPES if d == "float64" or _integral(case["S"])]
+    hdt = [d for d in H_DTYPES if d == "float64" or (_f32exact(case["h"]) if d == "float32" else _integral(case["h"]))]
+    if _f32_safe(case, "S"):
+        sdt = sdt + ["float32", "float32"]
+    rep["Sdt"], rep["hdt"] = rng.choice(sdt), rng.choice(hdt)
+    rep["E"] = rng.choice([k for k in E_REPS if k not in ("i64", "i32") or _integral(case["E"])]
+                          + (["f32", "f32"] if _f32_safe(case, "E") else []))
+    rep["V"] = rng.choice([k for k in V_REPS if (k not in ("i64", "i32") or _integral(case["V"]))
+                           and (k != "f32" or _f32exact(case["V"]))])
+    rep["D"] = rng.choice([k for k in SCALARS if _scalar_ok(k, case["D"]) and not (rep["Sdt"] != "float64" and k in INT_SCALARS)])
+    rep["T"] = rng.choice([k for k in SCALARS if _scalar_ok(k, case["T"])])
+    return rep
+
+
 def _rate_case(rng, nmax, tag=""):
     n = rng.choice([2, 2, 3, 3, 4, 5, 6, 8, 10, 12]) if nmax <= 12 else rng.randint(13, nmax)
     pk, pairs = _pattern(rng, n)
     ek, E = _energies(rng, n)
     T = rng.choice([300.0, 273.15, T_MIN, 1000.0, _logu(rng, T_MIN, 1000.0), _logu(rng, T_MIN, 1000.0)])
     D = rng.choice([1.0, _logu(rng, 1e-4, 1e2), _logu(rng, 1e-4, 1e2)])
-    return {
+    exact = rng.random() < 0.35      # integer-valued input: every dtype / scalar kind can carry it exactly
+    if exact:
+        val = lambda: float(rng.choice([1, 2, 3, 4, 5, 7, 8, 16, 25, 64, 100, rng.randint(1, 1000)]))
+        E = [float(round(v)) for v in E]
+        T = float(rng.choice([50, 100, 273, 300, 500, 1000]))
+        D = float(rng.choice([1, 1, 2, 3, 5, 10]))
+    else:
+        val = lambda: _logu(rng, 1e-3, 1e3)
+    case = {
         "kind": "rate", "n": n, "pattern": pk, "energies": ek,
         "fmtS": rng.choice(["csr", "coo"]), "fmth": rng.choice(["csr", "coo"]),
         "pairs": [list(p) for p in pairs],
-        "S": [_logu(rng, 1e-3, 1e3) for _ in pairs],
-        "h": [_logu(rng, 1e-3, 1e3) for _ in pairs],
-        "V": [_logu(rng, 1e-3, 1e3) for _ in range(n)],
+        "S": [val() for _ in pairs],
+        "h": [val() for _ in pairs],
+        "V": [val() for _ in range(n)],
         "E": E, "T": T, "D": D,
         "shift": rng.choice([1.0, -37.5, 1e3, -1e5, rng.uniform(-500, 500)]),
         "D2": _logu(rng, 1e-4, 1e2),
     }
+    if exact:
+        case["exact"] = True
+    case["rep"] = _choose_rep(rng, case)
+    return case
+
+
+def _rep_sweep():
+    """exhaustive over the representation families, one axis pair at a time, on three small integer-valued inputs"""
+    base = {"kind": "rate", "pattern": "rep_sweep", "energies": "rep_sweep", "shift": 17.0, "D2": 0.5, "exact": True,
+            "fmtS": "csr", "fmth": "coo"}
+    inputs = [
+        # 4 cells, one pair beyond the cap, asymmetric everything
+        {"n": 4, "pairs": [[0, 1], [0, 2], [1, 2], [2, 3]], "S": [3.0, 5.0, 7.0, 2.0], "h": [2.0, 4.0, 8.0, 16.0],
+         "V": [1.0, 2.0, 4.0, 8.0], "E": [0.0, 12.0, -530.0, 7.0], "T": 300.0, "D": 2.0},
+        # 2 cells, one pair
+        {"n": 2, "pairs": [[0, 1]], "S": [6.0], "h": [3.0], "V": [5.0, 2.0], "E": [-4.0, 9.0], "T": 273.0, "D": 1.0},
+        # 6 cells, a cell without neighbour, two components, a triangle
+        {"n": 6, "pairs": [[0, 1], [0, 2], [1, 2], [4, 5]], "S": [1.0, 9.0, 4.0, 25.0], "h": [8.0, 2.0, 5.0, 1.0],
+         "V": [3.0, 1.0, 7.0, 2.0, 6.0, 4.0], "E": [100.0, -50.0, 25.0, 0.0, 300.0, -300.0], "T": 100.0, "D": 3.0},
+    ]
+    for inp in inputs:
+        for a in FAMILIES:
+            for b in FAMILIES:
+                yield {**base, **inp, "rep": {**REP_DEFAULT, "S": a, "h": b}}
+        for a in S_DTYPES + (["float32"] if _f32_safe(inp, "S") else []):
+            for b in H_DTYPES:
+                yield {**base, **inp, "rep": {**REP_DEFAULT, "S": "coo_matrix", "h": "csc_array", "Sdt": a, "hdt": b}}
+        for a in E_REPS + (["f32"] if _f32_safe(inp, "E") else []):
+            for b in V_REPS:
+                yield {**base, **inp, "rep": {**REP_DEFAULT, "E": a, "V": b}}
+        for a in SCALARS:
+            for b in SCALARS:
+                yield {**base, **inp, "rep": {**REP_DEFAULT, "D": a, "T": b}}
+                if a not in INT_SCALARS:      # integer surfaces need a non-integer D on the unchanged tree
+                    yield {**base, **inp, "rep": {**REP_DEFAULT, "S": "csr_matrix", "Sdt": "int64", "D": a, "T": b}}
 
 
 def _corpus():
@@ -171,6 +319,13 @@ def _corpus():
                 "extra_h": [[1, 2, 5.0]]})
     out.append({"kind": "error", "what": "single_cell", "n": 1, "fmtS": "csr", "fmth": "csr", "pairs": [], "S": [], "h": [],
                 "V": [1.0], "E": [0.0], "T": 300.0, "D": 1.0, "extra_h": []})
+    reps = [{"S": "csr_matrix", "h": "csr_matrix"}, {"S": "coo_matrix", "h": "csr_array"}, {"S": "csr_matrix", "h": "coo_matrix"},
+            {"S": "lil_matrix", "h": "csc_matrix"}, {"S": "csc_array", "h": "lil_array"}, {"S": "coo_matrix", "h": "coo_matrix"}]
+    k = 0
+    for c in out:
+        if c["kind"] == "rate":
+            c["rep"] = {**REP_DEFAULT, **reps[k % len(reps)]}
+            k += 1
     return out
 
 
@@ -186,6 +341,18 @@ def cases(ctx):
     ctx.note("S and h are symmetric with a common pattern and are given as scipy builds them from a dense array: canonical csr "
              "or row-major coo (the forms FullGrid produces); unsorted csr / arbitrary-order coo are outside the quantifier")
     yield from _corpus()
+    # input representations: what the excluded ones do today (evidence only), then the exhaustive sweep
+    yield {"kind": "survey"}
+    nsw = 0
+    for c in _rep_sweep():
+        nsw += 1
+        yield c
+    ctx.extra_cov["representation_sweep"] = (f"{nsw} cases: on 3 fixed integer-valued inputs all {len(FAMILIES)}x{len(FAMILIES)} container "
+                                             f"classes (surfaces x distances), {len(S_DTYPES)}x{len(H_DTYPES)} data dtypes, {len(E_REPS)}x{len(V_REPS)} "
+                                             f"energies x volumes array kinds, {len(SCALARS)}x{len(SCALARS)} kinds of D x T (also with integer surfaces); "
+                                             "every other explored case carries one seed-chosen representation")
+    ctx.extra_cov["representations_in_sweep"] = {"containers": FAMILIES, "surfaces_dtype": S_DTYPES, "distances_dtype": H_DTYPES,
+                                                 "energies": E_REPS, "volumes": V_REPS, "D_and_T": SCALARS}
     # numpy's round(., 14) against the model's, in batches
     for _ in range(4 if ctx.quick else 40):
         xs = []
@@ -223,7 +390,7 @@ def cases(ctx):
             c["h_single"] = [0, 1, _logu(rng, 1e-3, 1e3)]
         else:
             c.update({"n": 1, "pairs": [], "S": [], "h": [], "V": c["V"][:1], "E": c["E"][:1]})
-        for k in ("shift", "D2"):
+        for k in ("shift", "D2", "rep", "exact"):
             c.pop(k, None)
         yield c
     for _ in range(40 if ctx.quick else 400):
@@ -233,6 +400,7 @@ def cases(ctx):
         c = _rate_case(rng, 12)
         c["T"] = rng.choice([42.0, 30.0, 10.0, _logu(rng, 5.0, 42.3), _logu(rng, 20.0, 49.0)])
         c["lowT"] = True
+        c["rep"] = _choose_rep(rng, c)
         yield c
     nsmall = 2500 if ctx.quick else 20000
     for _ in range(nsmall):
@@ -273,6 +441,99 @@ def _enc(m):
             "data": [core.fbits(v) for v in m.data]}
 
 
+def _mk_rep(family, dense, dtype):
+    import scipy.sparse as sp
+    if family.startswith("bsr"):     # 1x1 blocks: larger blocks store explicit zeros (outside the quantifier, see REP_EXCLUDED)
+        return getattr(sp, family)(dense.astype(dtype), blocksize=(1, 1))
+    return getattr(sp, family)(dense.astype(dtype))
+
+
+def _arr_rep(kind, vals):
+    a = np.array(vals, dtype=float)
+    if kind == "f32":
+        return a.astype(np.float32)
+    if kind == "i64":
+        return a.astype(np.int64)
+    if kind == "i32":
+        return a.astype(np.int32)
+    if kind in ("noncontig", "noncontig_readonly"):
+        b = np.full(2 * len(a) + 1, 7.0)
+        b[1::2] = a
+        a = b[1::2]
+    if kind == "negstride":
+        a = a[::-1].copy()[::-1]
+    if kind in ("readonly", "noncontig_readonly"):
+        a.setflags(write=False)
+    return a
+
+
+def _scalar_rep(kind, x):
+    return {"float": lambda: float(x), "int": lambda: int(x), "np.float64": lambda: np.float64(x),
+            "np.float32": lambda: np.float32(x), "np.int64": lambda: np.int64(int(x)), "np.int32": lambda: np.int32(int(x)),
+            "0d": lambda: np.array(float(x)), "0d_int": lambda: np.array(int(x))}[kind]()
+
+
+def _rep_tol(rep):
+    """comparison tolerances for a representation: float64 everywhere unless energies or surfaces data are float32"""
+    t = {"entry": 1e-10, "sum": 1e-12, "db": 1e-9, "ref": 1e-13, "model": 1e-11}
+    if rep["Sdt"] == "float32":       # the whole matrix is float32: a few roundings of 6e-8 per entry, n per row sum
+        t = {"entry": 2e-6, "sum": 2e-5, "db": 1e-5, "ref": 2e-6, "model": 2e-6}
+    if rep["E"] == "f32":             # the exponent (|x| < 80, or the witnesses' 90) carries a few float32 roundings
+        t.update({"entry": 1e-4, "db": 3e-4, "ref": 1e-4, "model": 1e-4})
+    return t
+
+
+def _f32_sets(case, rep):
+    """entries that overflow (over) / may or may not overflow or are subnormal (border) because np.exp or the data are float32"""
+    over, border = set(), set()
+    fE, fS = rep["E"] == "f32", rep["Sdt"] == "float32"
+    if not (fE or fS):
+        return over, border
+    rt2 = 2.0 * R_KJ * case["T"]
+    E, V, D = case["E"], case["V"], case["D"]
+    for (i, j), sv, hv in zip(case["pairs"], case["S"], case["h"]):
+        for a, b in ((i, j), (j, i)):
+            x = min(E[a] - E[b], CAP) / rt2
+            lg = math.log(D * sv / (hv * V[a])) + x
+            if (fE and x > F32_HI) or (fS and lg > F32_HI):
+                over.add((a, b))
+            elif (fE and (x > F32_LO or x < F32_UNDER)) or (fS and (lg > F32_LO or lg < F32_UNDER)):
+                border.add((a, b))
+    return over, border
+
+
+def _rep_label(rep):
+    return (f"surfaces={rep['S']}[{rep['Sdt']}] distances={rep['h']}[{rep['hdt']}] energies={rep['E']} volumes={rep['V']} "
+            f"D={rep['D']} T={rep['T']}")
+
+
+def _survey():
+    """what the representations that are NOT part of the sweep do on the tree under test (evidence only)"""
+    import scipy.sparse as sp
+    from molgri.molecules.transitions import SQRA
+    A = np.array([[0.0, 1.0], [1.0, 0.0]])
+    E, V = np.array([450.0, 0.0]), np.array([1.0, 1.0])
+
+    def go(e, v, h, sf, D):
+        try:
+            q = _call(SQRA(e, v, h, sf), D, 300.0).toarray()
+            return "returns " + ("a finite matrix" if np.isfinite(q).all() else "inf/nan entries") + f", Q[0][1]={q[0][1]!r}"
+        except Exception as ex:
+            return "raises " + type(ex).__name__
+    return {
+        "reference csr_array/float64": go(E, V, sp.csr_array(A), sp.csr_array(A), 1.0),
+        "dok_array surfaces": go(E, V, sp.csr_array(A), sp.dok_array(A), 1.0),
+        "dok_matrix distances": go(E, V, sp.dok_matrix(A), sp.csr_array(A), 1.0),
+        "energies list": go(list(E), V, sp.csr_array(A), sp.csr_array(A), 1.0),
+        "volumes tuple": go(E, tuple(V), sp.csr_array(A), sp.csr_array(A), 1.0),
+        "int64 surfaces, int D": go(E, V, sp.csr_array(A), sp.csr_array(A.astype(np.int64)), 1),
+        "bsr 2x2 blocks, surfaces only": go(E, V, sp.csr_array(A), sp.bsr_array(A, blocksize=(2, 2)), 1.0),
+        "bsr 2x2 blocks, both": go(E, V, sp.bsr_array(A, blocksize=(2, 2)), sp.bsr_array(A, blocksize=(2, 2)), 1.0),
+        "float32 energies": go(E.astype(np.float32), V, sp.csr_array(A), sp.csr_array(A), 1.0),
+        "float32 surfaces": go(E, V, sp.csr_array(A), sp.csr_array(A.astype(np.float32)), 1.0),
+    }
+
+
 def _call(sq, D, T):
     with core.quiet():
         return sq.get_rate_matrix(D, T)
@@ -281,6 +542,8 @@ def _call(sq, D, T):
 def impl(case):
     if case["kind"] == "round":
         return {"r": [float(v) for v in np.round(np.array(case["xs"], dtype=float), 14)]}
+    if case["kind"] == "survey":
+        return {"survey": _survey()}
     from molgri.molecules.transitions import SQRA
     Sd, hd = _dense(case)
     Ss, hs = _mk(case["fmtS"], Sd), _mk(case["fmth"], hd)
@@ -310,6 +573,29 @@ def impl(case):
         out["Q_shift"] = _call(sq3, case["D"], case["T"]).toarray().tolist()
     except Exception as e:
         out["err2"] = core.errname(e)
+    # the same denoted input in another representation (container class, dtypes, array kinds, scalar kinds)
+    rep = case.get("rep")
+    if rep:
+        try:
+            Sr, hr = _mk_rep(rep["S"], Sd, rep["Sdt"]), _mk_rep(rep["h"], hd, rep["hdt"])
+            Er, Vr = _arr_rep(rep["E"], case["E"]), _arr_rep(rep["V"], case["V"])
+            Dr, Tr = _scalar_rep(rep["D"], case["D"]), _scalar_rep(rep["T"], case["T"])
+            faithful = (np.array_equal(Sr.toarray(), Sd) and np.array_equal(hr.toarray(), hd)
+                        and np.array_equal(np.asarray(Er, dtype=float), E) and np.array_equal(np.asarray(Vr, dtype=float), V)
+                        and float(Dr) == case["D"] and float(Tr) == case["T"])
+            if not faithful:       # a generator mistake, not the code's: the representation would denote other numbers
+                raise core.HarnessError(f"representation {rep} does not denote the numbers of the case")
+            Qr = _call(SQRA(Er, Vr, hr, Sr), Dr, Tr)
+            out.update({"rep_type": type(Qr).__name__, "rep_format": getattr(Qr, "format", None), "rep_shape": list(Qr.shape),
+                        "Q_rep": np.asarray(Qr.toarray(), dtype=float).tolist()})
+            out["rep_inputs_unchanged"] = bool(
+                np.array_equal(Sr.toarray(), Sd) and np.array_equal(hr.toarray(), hd)
+                and np.array_equal(np.asarray(Er, dtype=float), E) and np.array_equal(np.asarray(Vr, dtype=float), V)
+                and float(Dr) == case["D"] and float(Tr) == case["T"])
+        except core.HarnessError:
+            raise
+        except Exception as e:
+            out["err_rep"] = core.errname(e)
     return out
 
 
@@ -319,6 +605,8 @@ def impl(case):
 def model_ops(case, out):
     if case["kind"] == "round":
         return [{"op": "round14", "xs": [core.fbits(x) for x in case["xs"]]}, {"op": "consts"}]
+    if case["kind"] == "survey":
+        return []
     return [{"op": "rate", "E": [core.fbits(x) for x in case["E"]], "V": [core.fbits(x) for x in case["V"]],
              "D": core.fbits(case["D"]), "T": core.fbits(case["T"]), "dist": out["dist"], "surf": out["surf"]}]
 
@@ -344,6 +632,10 @@ def _outside(ctx, case, impl_v, model_v):
 
 
 def compare(ctx, case, out, mouts):
+    if case["kind"] == "survey":
+        ctx.extra_cov["representations_excluded"] = REP_EXCLUDED
+        ctx.extra_cov["representations_excluded_observed_now"] = out["survey"]
+        return
     m = mouts[0]
     if case["kind"] == "round":
         mr = [core.unfbits(b) for b in m["ok"]]
@@ -395,6 +687,37 @@ def compare(ctx, case, out, mouts):
         ctx.branch("error_kind_without_error:" + case["what"])
         ctx.nt(("err", _key(case)))
         return
+    # the same input in another representation: the model (which takes the denoted numbers) must still describe the result
+    rep = case.get("rep")
+    if rep and "Q_rep" in out:
+        Qr = out["Q_rep"]
+        if out["rep_shape"] != [n, n]:
+            ctx.corr("rate/shape [" + _rep_label(rep) + "]", case, out["rep_shape"], [n, n])
+            return
+        tolm = _rep_tol(rep)["model"]
+        o32, b32 = _f32_sets(case, rep)
+        skip = {i for (i, _j) in o32 | b32}          # rows with a float32 overflow / subnormal entry (finding F23)
+        for i in range(n):
+            if i in skip:
+                continue
+            scale = sum(abs(v) for v in M[i])
+            for j in range(n):
+                a, b = Qr[i][j], M[i][j]
+                ok = _close(a, b, tolm) if i != j else (a == b or abs(a - b) <= TINY + tolm * scale)
+                if not ok and not (math.isnan(a) and math.isnan(b)):
+                    ctx.corr("rate/entry [" + _rep_label(rep) + "]", case, {"i": i, "j": j, "value": a}, {"value": b})
+                    return
+        for k in ("S", "h"):
+            ctx.branch(f"rep:{'surfaces' if k == 'S' else 'distances'}={rep[k]}")
+        ctx.branch("rep:surfaces_dtype=" + rep["Sdt"])
+        ctx.branch("rep:distances_dtype=" + rep["hdt"])
+        ctx.branch("rep:energies=" + rep["E"])
+        ctx.branch("rep:volumes=" + rep["V"])
+        ctx.branch("rep:D=" + rep["D"])
+        ctx.branch("rep:T=" + rep["T"])
+        ctx.branch("rep:returned=" + out["rep_type"])
+    elif rep:
+        ctx.corr("rate/outcome [" + _rep_label(rep) + "]", case, out.get("err_rep"), "ok")
     # evidence
     E = case["E"]
     ctx.branch(f"fmt:{case['fmtS']}/{case['fmth']}")
@@ -424,10 +747,12 @@ def _same(a, b, rel):
     return (math.isnan(a) and math.isnan(b)) or _close(a, b, rel)
 
 
-def _fail_matrix(ctx, key, what, case, A, B, rel):
+def _fail_matrix(ctx, key, what, case, A, B, rel, skip_rows=()):
     """first position where two matrices differ beyond the tolerance (diagonal: relative to the row's magnitude)"""
     n = len(A)
     for i in range(n):
+        if i in skip_rows:
+            continue
         sc = sum(abs(v) for v in A[i])
         for j in range(n):
             a, b = A[i][j], B[i][j]
@@ -438,17 +763,10 @@ def _fail_matrix(ctx, key, what, case, A, B, rel):
     return False
 
 
-def oracle(ctx, case, out):
-    if case["kind"] != "rate":
-        return
-    if "err" in out or "err2" in out:
-        ctx.fail("C01:exception", f"get_rate_matrix raised {out.get('err', out.get('err2'))} on a valid input", case)
-        return
+def _statement(ctx, case, Q, tag="", main=True, tol=None, f32=(frozenset(), frozenset())):
+    """clauses (1)-(3) of C01 evaluated on one returned matrix `Q` (dense) for the numbers the case denotes.
+    Returns (ok, over, border, f32_hit); ok=False after a ctx.fail."""
     n, E, V, T, D = case["n"], case["E"], case["V"], case["T"], case["D"]
-    if out["format"] != "csr" or out["shape"] != [n, n]:
-        ctx.fail("C01:return_type", f"returned {out['type']} {out['shape']}, expected csr {n}x{n}", case)
-        return
-    Q = out["Q"]
     S = {}
     H = {}
     for (i, j), s, x in zip(case["pairs"], case["S"], case["h"]):
@@ -464,45 +782,49 @@ def oracle(ctx, case, out):
             over.add((i, j))
         elif lg > LOG_LO or x > 709.6:
             border.add((i, j))
-    bad_rows = {i for (i, _j) in over | border}
-    if border:
+    tol = tol or {"entry": 1e-10, "sum": 1e-12, "db": 1e-9}
+    # float32 evaluation (finding F23): these entries are inf today; the correct finite value is accepted as well
+    f32_hit = {(i, j) for (i, j) in set(f32[0]) - over if Q[i][j] == math.inf}
+    border = (border | set(f32[1])) - over
+    bad_rows = {i for (i, _j) in over | border | f32_hit}
+    if border and main:
         ctx.branch("excluded_entries_within_overflow_margin", len(border))
     # (1) entry formula on the pattern, zero elsewhere off the diagonal
     for i in range(n):
         for j in range(n):
             if i == j:
                 if i not in bad_rows and not math.isfinite(Q[i][i]):
-                    ctx.fail("C01:not_finite", f"Q[{i}][{i}] is not finite although every entry of the row fits float64", case)
-                    return
+                    ctx.fail("C01:not_finite", f"{tag}Q[{i}][{i}] is not finite although every entry of the row fits float64", case)
+                    return False, over, border, f32_hit
                 continue
             if (i, j) in over:
                 if Q[i][j] != math.inf:
-                    ctx.fail("C01:entry_formula", f"Q[{i}][{j}]: exact value exceeds float64, expected inf", case,
+                    ctx.fail("C01:entry_formula", f"{tag}Q[{i}][{j}]: exact value exceeds float64, expected inf", case,
                              expected="inf", observed=Q[i][j])
-                    return
-            elif (i, j) in border:
+                    return False, over, border, f32_hit
+            elif (i, j) in border or (i, j) in f32_hit:
                 continue
             elif (i, j) in S:
                 d = E[i] - E[j]
                 pref, x = D * S[(i, j)] / (H[(i, j)] * V[i]), min(d, CAP) / rt2
                 want = pref * math.exp(x) if x < 700 else math.exp(math.log(pref) + x)   # (x >= 700 only below 50 K)
-                if not _close(Q[i][j], want, 1e-10):
-                    ctx.fail("C01:entry_formula", f"Q[{i}][{j}] is not D*S/(h*V_i)*exp(min(E_i-E_j,500)/(2RT))", case,
+                if not _close(Q[i][j], want, tol["entry"]):
+                    ctx.fail("C01:entry_formula", f"{tag}Q[{i}][{j}] is not D*S/(h*V_i)*exp(min(E_i-E_j,500)/(2RT))", case,
                              expected=want, observed=Q[i][j])
-                    return
+                    return False, over, border, f32_hit
             elif Q[i][j] != 0:
-                ctx.fail("C01:off_pattern", f"Q[{i}][{j}] is non-zero off the pattern", case, expected=0.0, observed=Q[i][j])
-                return
+                ctx.fail("C01:off_pattern", f"{tag}Q[{i}][{j}] is non-zero off the pattern", case, expected=0.0, observed=Q[i][j])
+                return False, over, border, f32_hit
     # (2) zero row sums
     for i in range(n):
         if i in bad_rows:
             continue
         tot = math.fsum(Q[i])
         mag = math.fsum(abs(v) for v in Q[i])
-        if abs(tot) > 1e-12 * mag + TINY:
-            ctx.fail("C01:row_sum", f"row {i} sums to {tot} (magnitude {mag})", case, expected=0.0, observed=tot)
-            return
-    if over:
+        if abs(tot) > tol["sum"] * mag + TINY:
+            ctx.fail("C01:row_sum", f"{tag}row {i} sums to {tot} (magnitude {mag})", case, expected=0.0, observed=tot)
+            return False, over, border, f32_hit
+    if over and main:
         # OPEN FINDING: the property (all T > 0) fails in float64: inf entries, row sum nan
         i = min(over)[0]
         ctx.fail(KEY_OVERFLOW, f"T={T} K: entry {min(over)} overflows float64 although the energy difference is capped at 500 "
@@ -515,13 +837,60 @@ def oracle(ctx, case, out):
             a = V[i] * Q[i][j] * math.exp(-d / rt2)
             b = V[j] * Q[j][i] * math.exp(d / rt2)
             if min(abs(Q[i][j]), abs(Q[j][i])) < 1e-280 and abs(d) / rt2 > 600:
-                ctx.branch("db_pairs_skipped_underflow")       # one direction is subnormal / 0 (only below 50 K)
+                if main:
+                    ctx.branch("db_pairs_skipped_underflow")       # one direction is subnormal / 0 (only below 50 K)
                 continue
-            if not _close(a, b, 1e-9):
-                ctx.fail("C01:detailed_balance", f"V_i pi_i Q_ij != V_j pi_j Q_ji for the pair ({i},{j}) below the cap", case,
+            if not _close(a, b, tol["db"]):
+                ctx.fail("C01:detailed_balance", f"{tag}V_i pi_i Q_ij != V_j pi_j Q_ji for the pair ({i},{j}) below the cap", case,
                          expected=b, observed=a)
-                return
-            ctx.branch("db_pairs_checked")
+                return False, over, border, f32_hit
+            if main:
+                ctx.branch("db_pairs_checked")
+    return True, over, border, f32_hit
+
+
+def oracle(ctx, case, out):
+    if case["kind"] != "rate":
+        return
+    if "err" in out or "err2" in out:
+        ctx.fail("C01:exception", f"get_rate_matrix raised {out.get('err', out.get('err2'))} on a valid input", case)
+        return
+    n, E, V, T, D = case["n"], case["E"], case["V"], case["T"], case["D"]
+    if out["format"] != "csr" or out["shape"] != [n, n]:
+        ctx.fail("C01:return_type", f"returned {out['type']} {out['shape']}, expected csr {n}x{n}", case)
+        return
+    Q = out["Q"]
+    rt2 = 2.0 * R_KJ * T
+    ok, over, border, _ = _statement(ctx, case, Q)
+    if not ok:
+        return
+    # (8) the same numbers in another representation the API accepts (container class, dtypes, array / scalar kinds)
+    rep = case.get("rep")
+    if rep:
+        tag = "[input representation: " + _rep_label(rep) + "] "
+        if "err_rep" in out:
+            ctx.fail("C01:exception", f"{tag}get_rate_matrix raised {out['err_rep']} on a valid input", case)
+            return
+        if out["rep_format"] != "csr" or out["rep_shape"] != [n, n]:
+            ctx.fail("C01:return_type", f"{tag}returned {out['rep_type']} {out['rep_shape']}, expected csr {n}x{n}", case)
+            return
+        tol = _rep_tol(rep)
+        o32, b32 = _f32_sets(case, rep)
+        okr, _o, _b, hit = _statement(ctx, case, out["Q_rep"], tag=tag, main=False, tol=tol, f32=(o32, b32))
+        if not okr:
+            return
+        if hit:
+            # OPEN FINDING F23: inf where the float64 evaluation is finite (every other entry was checked above)
+            i, j = min(hit)
+            ctx.fail(KEY_F32, f"{tag}T={T} K, E_i-E_j={E[i] - E[j]} kJ/mol (below the cap or capped): the float32 evaluation of "
+                     f"entry ({i},{j}) overflows (exponent > 88.7), Q[{i}][{j}]={out['Q_rep'][i][j]}, row sum {sum(out['Q_rep'][i])}; "
+                     f"float64 gives {Q[i][j]}", case, expected=Q[i][j], observed=out["Q_rep"][i][j])
+        if _fail_matrix(ctx, "C01:representation", tag + "the matrix differs from the one for csr/coo arrays of float64", case,
+                        out["Q_rep"], Q, tol["ref"], skip_rows={i for (i, _j) in hit | b32}):
+            return
+        if not out["rep_inputs_unchanged"]:
+            ctx.fail("C01:inputs_mutated", tag + "get_rate_matrix changed its inputs", case)
+            return
     # (5) repeatable, inputs untouched; (6) csr / row-major coo give the same matrix
     if _fail_matrix(ctx, "C01:history", "a repeated call with the first arguments gives another matrix", case,
                     out["Q_again"], Q, 1e-14):
